@@ -286,7 +286,7 @@ Definition check (c : case) : verdict :=
     let rs' := map (option_map mk_rtx) rs in
     let '(calls_m, relayed_m) := relay_search Hs orc prove rs' in
     let vs := map (fun x => match x with
-                            | None => 1%N
+                            | None => 0%N      (* a nil entry carries no data (the repaired client refuses it: observable 39) *)
                             | Some r => tx_verdict o r (find_txs blocks (t_height r))
                             end) rs' in
     first_of [
